@@ -47,8 +47,12 @@ class HangDetected(BaseException):
     is used for nothing else: it never influences a result that completes."""
 
 
-OP_LIMIT = float(os.environ.get("VERIF_OP_LIMIT", "20"))
-PAR_LIMIT = float(os.environ.get("VERIF_PAR_LIMIT", "60"))
+# Wall-clock limits are a last resort only (they turn an endless world into a
+# harness-level stall report, never into a result): the deciding hang guard is
+# the deterministic step limit below.
+OP_LIMIT = float(os.environ.get("VERIF_OP_LIMIT", "240"))
+PAR_LIMIT = float(os.environ.get("VERIF_PAR_LIMIT", "480"))
+SEQ_STEP_LIMIT = int(os.environ.get("VERIF_SEQ_STEP_LIMIT", "5000000"))  # engine-scope line events per sequential op
 
 
 class lib_run:
@@ -65,15 +69,20 @@ class lib_run:
 
     def __enter__(self):
         pol = sched.make_policy(self.spec, 8, 5000)
-        KERNEL.begin_run(pol, scope_files(self.spec.get("scope", "nokw")), step_cap=5_000_000,
-                         fault_seed=self.spec["seed"], timeout_fire_p=self.spec.get("timeout_fire_p", 0.0))
+        # the main task is traced in the (cheap) engine scope from the start - that is what the
+        # deterministic step limit counts - and in the library scope as soon as a thread is spawned
+        KERNEL.begin_run(pol, scope_files("engine"), step_cap=None, fault_seed=self.spec["seed"],
+                         timeout_fire_p=self.spec.get("timeout_fire_p", 0.0), hang_limit=SEQ_STEP_LIMIT,
+                         lib_scope=scope_files(self.spec.get("scope", "nokw")))
         KERNEL.main_real_timeout = PAR_LIMIT
         self.started0 = KERNEL.counters["lib_threads_started"]
+        KERNEL.trace_current(KERNEL.main)
         return self
 
     def __exit__(self, *a):
         KERNEL.untrace_current()
         KERNEL.main_real_timeout = None
+        KERNEL.hang_limit = None
         n = KERNEL.counters["lib_threads_started"] - self.started0
         if n and self.sink is not None:
             self.sink.append({"op": self.opi, "lib_threads": n, "events": KERNEL.n, "switches": KERNEL.switches,
@@ -121,6 +130,16 @@ def scope_files(kind):
     return out
 
 
+def kwdir_path(scratch, form):
+    """The custom keyword directory as the caller names it.  The world's cwd
+    is its scratch directory, so the relative forms name the same directory."""
+    full = os.path.join(scratch, "kw")
+    if os.path.realpath(os.getcwd()) != os.path.realpath(scratch):
+        return full
+    return {"abs": full, "rel": "kw", "dot": os.path.join(".", "kw"), "slash": "kw" + os.sep,
+            "abs_slash": full + os.sep}.get(form or "abs", full)
+
+
 def import_repo():
     import multidecoder
 
@@ -165,8 +184,8 @@ class W09:
         cfg = self.scn["config"]
         FS.configure(enum_seed=self.w.get("enum_seed", 0), io_seed=self.w.get("io_seed", 0), io_knobs=self.w.get("io", {}))
         if cfg["keywords"] != "shipped":
-            self.kwdir = os.path.join(self.scratch, "kw")
-            fsim.materialise(cfg["keywords"], self.kwdir)
+            fsim.materialise(cfg["keywords"], os.path.join(self.scratch, "kw"))
+            self.kwdir = kwdir_path(self.scratch, self.w.get("kwdir_form"))
         import_repo()
         import multidecoder.json_conversion  # noqa: F401
         import multidecoder.multidecoder  # noqa: F401
@@ -223,8 +242,10 @@ class W09:
                     t = sc.scan_node(Node("", data, "", 0, len(data)), d)
                 else:
                     t = sc.scan(data, d)
-        except HangDetected as e:
-            self.aborted = True
+        except HangDetected:
+            raise Harness(f"stall: sequential scan of input {i} exceeded {OP_LIMIT}s of wall time without exceeding the step limit")
+        except kernel.StepLimitExceeded as e:
+            self.aborted = True  # the scanner may be in any state now
             t = e
         except Exception as e:  # noqa: BLE001 - an exception is a result too
             t = e
@@ -258,28 +279,34 @@ class W09:
         # sequential dry run: step counts (for PCT and the step cap) and a
         # same-world sequential witness for every key
         est = 0
+        counts = {} if spec.get("policy") == "sw" else None
         for (i, d), fn in zip(jobs, fns):
             try:
                 with watchdog(OP_LIMIT * 2):
-                    t, n = sched.count_steps(scope, fn)
-            except HangDetected as e:
+                    t, n = sched.count_steps(scope, fn, counts, limit=SEQ_STEP_LIMIT * (1 if spec.get("scope", "engine") == "engine" else 40),
+                                             exc=kernel.StepLimitExceeded)
+            except HangDetected:
+                raise Harness(f"stall: dry run of input {i} exceeded {OP_LIMIT * 2}s of wall time")
+            except kernel.StepLimitExceeded as e:
                 self.aborted = True
                 self.record(f"{i}:{d}:tree", e, task="dry")
                 return
             est += n
             self.record(f"{i}:{d}:tree", t, task="dry")
-        policy = sched.make_policy(spec, len(fns) + 1, est)
+        policy = sched.make_policy(spec, len(fns) + 1, est, counts)
         s = KERNEL
         s.begin_run(policy, scope, step_cap=20 * est + 1000, fault_seed=spec.get("seed", 0),
-                    timeout_fire_p=spec.get("timeout_fire_p", 0.0))
+                    timeout_fire_p=spec.get("timeout_fire_p", 0.0), hang_limit=60 * est + 2_000_000)
         try:
             tasks = s.run_tasks(fns, real_timeout=PAR_LIMIT)
         except kernel.SimDeadlock as e:
             self.record(f"{jobs[0][0]}:{jobs[0][1]}:tree", e, task="deadlock")
             return
         if s.hung:
-            self.aborted = True
+            raise Harness(f"stall: par_scan exceeded {PAR_LIMIT}s of wall time without exceeding the step limit")
         for (i, d), t in zip(jobs, tasks):
+            if isinstance(t.error, kernel.StepLimitExceeded):
+                self.aborted = True
             if not t.done:
                 self.record(f"{i}:{d}:tree", HangDetected(), task=t.idx)
             elif t.error is not None:
@@ -325,8 +352,10 @@ class W09:
                     tree_to_json(tree),
                 ]
         except HangDetected:
+            raise Harness(f"stall: view exceeded {OP_LIMIT}s of wall time")
+        except kernel.StepLimitExceeded:
             self.aborted = True
-            v = ["EXC", "HangDetected"]
+            v = ["EXC", "StepLimitExceeded"]
         except Exception as e:  # noqa: BLE001
             v = ["EXC", type(e).__name__]
         base = key.rsplit(":", 1)[0]
@@ -402,6 +431,10 @@ class W09:
                     self.do_cli(op[1], op[2], op[3])
                 elif k == "gc":
                     gc.collect()
+                elif k == "import":
+                    import importlib
+
+                    importlib.import_module("multidecoder.decoders." + op[1])
                 else:
                     raise Harness("unknown op " + k)
         self.opi = len(self.w["ops"])
@@ -470,7 +503,7 @@ class W18:
         self.counters = {"ops": 0, "registries_checked": 0, "keyword_entries_applied": 0, "decoder_filters": 0,
                          "cold_builds": 0, "warm_builds": 0, "shipped_checks": 0, "custom_checks": 0}
         self.opi = -1
-        self.kwdir = os.path.join(scratch, "kw")
+        self.kwdir = kwdir_path(scratch, self.w.get("kwdir_form"))
         self.shipped_dir = os.path.join(SRC, "multidecoder", "keywords")
         self._shipped_model = None
         self._D = None
@@ -648,7 +681,7 @@ class W18:
         raise Harness("bad form " + form)
 
     def run(self):
-        fsim.materialise(self.scn["layout"], self.kwdir)
+        fsim.materialise(self.scn["layout"], os.path.join(self.scratch, "kw"))
         FS.configure(enum_seed=self.w.get("enum_seed", 0), io_seed=self.w.get("io_seed", 0), io_knobs=self.w.get("io", {}))
         import_repo()
         for self.opi, op in enumerate(self.w["ops"]):
@@ -660,7 +693,11 @@ class W18:
             k = op[0]
             from multidecoder import registry as R
 
-            if k == "get_keywords":
+            if k == "import":
+                import importlib
+
+                importlib.import_module("multidecoder.decoders." + op[1])
+            elif k == "get_keywords":
                 custom = op[1]
                 kws = R.get_keywords(self.kwdir) if custom else R.get_keywords()
                 self.check_registry(kws, custom, None, None, f"get_keywords(custom={custom})", filtered=False)
@@ -771,8 +808,8 @@ class W20:
         scn, w = self.scn, self.w
         kwdir = ""
         if scn.get("layout"):
-            kwdir = os.path.join(self.scratch, "kw")
-            fsim.materialise(scn["layout"], kwdir)
+            fsim.materialise(scn["layout"], os.path.join(self.scratch, "kw"))
+            kwdir = kwdir_path(self.scratch, w.get("kwdir_form"))
         FS.configure(enum_seed=w.get("enum_seed", 0), io_seed=w.get("io_seed", 0), io_knobs=w.get("io", {}))
         import_repo()
         import procsim
